@@ -100,7 +100,53 @@ func showResults(vs []*ref.V) string {
 	return "[" + strings.Join(parts, " ; ") + "]"
 }
 
+// c01EntryShapes: what from_entries / with_entries take for an entry is documented: `key` (or k / name) and `value` (or v).
+// Each row: expression, and what it must give (error = "!").
+var c01EntryShapes = [][2]string{
+	{`[{"key":"a","value":1}] | from_entries`, `{"a":1}`},
+	{`[{"key":"a","val":1}] | from_entries`, `!`},
+	{`[{"key":"a","index":1}] | from_entries`, `!`},
+	{`[{"key":"a","value":1,"x":2}] | from_entries`, `{"a":1}`},
+	{`[{"value":1,"key":"a"}] | from_entries`, `{"a":1}`},
+	{`{"p":1} | with_entries({"key": .key, "v2": .value})`, `!`},
+	{`{"p":1} | to_entries | map({"key": .value, "index": .key}) | from_entries`, `!`},
+	{`[["a", 1]] | from_entries`, `!`},
+	{`{"p":1,"q":2} | with_entries(select(.value > 1))`, `{"q":2}`},
+	{`[[[1]],[]] | flatten`, `[1]`},
+	{`[[1,[2,[3]]],[]] | flatten`, `[1,2,3]`},
+	{`[1,[[2]],[]] | flatten(2)`, `[1,2]`},
+	{`[[],[[1]],[],[[[2]]],[]] | flatten`, `[1,2]`},
+}
+
+func c01EntryShapeCase(idx int) mon.Result {
+	row := c01EntryShapes[(idx/997)%len(c01EntryShapes)]
+	res := mon.Result{Case: c01Case{row[0], "null"}, Evals: 1, Nontrivial: true, Tags: []string{"fixed_shapes"}}
+	res.Sig = "shape|" + row[0]
+	out, err, pan := yqx.Eval(row[0], "null\n", "yaml", "json")
+	switch {
+	case pan != nil:
+		res.Verdict, res.Detail = mon.Violated, fmt.Sprintf("`%s` panicked: %v", row[0], pan)
+	case row[1] == "!" && err == nil:
+		res.Verdict, res.Detail = mon.Violated, fmt.Sprintf("`%s` must be refused (it is not an entry of the documented shape), yq gave %s", row[0], strings.TrimSpace(out))
+	case row[1] != "!" && err != nil:
+		res.Verdict, res.Detail = mon.Violated, fmt.Sprintf("`%s` failed: %v", row[0], err)
+	case row[1] != "!":
+		a, e1 := ref.ParseJSON(strings.TrimSpace(out))
+		b, _ := ref.ParseJSON(row[1])
+		if e1 != nil || !ref.EqualNum(a, b) {
+			res.Verdict, res.Detail = mon.Violated, fmt.Sprintf("`%s` gives %s, expected %s", row[0], strings.TrimSpace(out), row[1])
+		}
+	}
+	if res.Verdict == "" {
+		res.Verdict, res.Detail = mon.Held, "as documented"
+	}
+	return res
+}
+
 func (p c01) Run(w *mon.Worker, idx int) mon.Result {
+	if idx%997 == 5 {
+		return c01EntryShapeCase(idx)
+	}
 	e, doc := c01Gen(w, idx)
 	expr := e.String()
 	docText := doc.JSON()
